@@ -38,9 +38,13 @@ Qed.
 (* MAIN: every finite history over Draw | Frame | SkipFrame | Clear | Renew | Resize, from a fresh
    renderer on a blank terminal that executes exactly the issued commands (a Resize replaces the
    terminal's cells by an arbitrary screen of the new size): after every Frame the terminal displays
-   show(S) for the surface S drawn for that frame — also when clear() came between the drawing and the
-   frame — and no command is a protocol error.  [good_ops]: every drawn surface is good for the size
-   the terminal has at that moment. *)
+   show(S) for the surface S drawn for that frame, and no command is a protocol error.  clear(), a new
+   renderer and a resize RESET the surface (API contract of TerminalRenderer::clear): S is what was
+   drawn since the last Frame / SkipFrame / Clear / Renew / Resize, so [Draw S; Clear; Frame] must show
+   the blank surface, not S.  (The guarantee "a forced clear never loses a drawing" is therefore not a
+   statement about histories; it is carried by the order in which run_render calls frames_drop,
+   clear() and the handler, and is judged by C01_render_loop.)  [good_ops]: every drawn surface is
+   good for the size the terminal has at that moment. *)
 Theorem C01_history : forall o h w ops,
   oracle_ok o -> good_ops o h w ops ->
   spec_run o h w (blank_screen h w) (gmake h w cell_default) ops (rrun o (rnew h w false) ops) = true.
@@ -97,10 +101,11 @@ Theorem C01_idle_frame : forall o h w old front,
   fst (frame o (mkrstate h w front old (gmake h w MEmpty))) = [].
 Proof. exact idle_frame. Qed.
 
-(* RENDER LOOP with frame dropping (Terminal::run_render and its output queue, Render/Loop.v): the
-   handler draws, then either frame(), or - when frames_pending() exceeds TERMINAL_FRAMES_DROP
-   (regenerated from the source) - frames_drop(); clear(); frame().  The terminal executes only what
-   is delivered: every chunk (the commands between two polls) whole or not at all, a drop keeps a
+(* RENDER LOOP with frame dropping (Terminal::run_render and its output queue, Render/Loop.v): per
+   iteration poll; then - when frames_pending() exceeds TERMINAL_FRAMES_DROP (regenerated from the
+   source) - frames_drop(); clear(); only then the handler draws; then frame() (or nothing for
+   WaitNoFrame).  Because the clear() precedes the drawing, the forced repaint shows the surface the
+   handler drew for that iteration.  The terminal executes only what is delivered: every chunk (the commands between two polls) whole or not at all, a drop keeps a
    prefix of the pending chunks (interface proved for the real queue by C16_frames,
    C16_frames_flush_delimited, C16_render_loop_schema).  For every session - what is drawn, how many
    chunks the tty takes at each poll, what frames_pending() answers, how many pending chunks survive
